@@ -323,7 +323,41 @@ func (e *Exec) recordViolation(kind, label, detail string, extra *Term) {
 			}
 		}
 	}
-	r, vals = e.checkVals(e.inputs, lits...)
+	if e.Cfg.Float == FloatReal || e.Cfg.Float == FloatRErr {
+		// Real-valued models are replayed with float32/float64 inputs. A model on the
+		// boundary of an assumption, or one that needs a value no float has, is lost in
+		// the conversion. Prefer a model whose real inputs lie on a dyadic grid
+		// (k / 2^16, failing that k / 2^22, then k / 2^24: float32-representable in
+		// the harness ranges); fall back to the unconstrained model.
+		for _, sh := range []int64{1 << 16, 1 << 22, 1 << 24} {
+			grid := append([]*Term(nil), lits...)
+			n := 0
+			for _, in := range e.inputs {
+				if in.Sort.K != SReal {
+					continue
+				}
+				n++
+				k := e.B.Var(fmt.Sprintf("grid%d!%s", sh, in.Name), IntSort)
+				grid = append(grid, e.B.Eq(e.B.RBin(ORMul, in, e.B.RealConst(big.NewRat(sh, 1))), e.B.IntToReal(k)))
+			}
+			if n == 0 {
+				break
+			}
+			save := e.S.LongMs
+			if e.S.LongMs > 30000 {
+				e.S.LongMs = 30000
+			}
+			gr, gvals := e.S.OneShot(append(append(append([]*Term(nil), e.pcs...), e.ufFacts...), grid...), e.inputs, e.S.LongMs, nil)
+			e.S.LongMs = save
+			if gr == Sat {
+				r, vals = gr, gvals
+				break
+			}
+		}
+	}
+	if r != Sat {
+		r, vals = e.checkVals(e.inputs, lits...)
+	}
 	if r == Sat {
 		v.HasModel = true
 		for i, in := range e.inputs {
